@@ -31,6 +31,8 @@ func checkC01(c *Ctx, r *Report) {
 	c01List(c, r, a)
 	c01Sel(c, r, a)
 	c01Typename(c, r, a)
+	r.rule("C01.NATIVE", "lists held in the Go carriers the library walks itself (frozen table) are mirrored by the library's own element loops on every configuration: no path hands such a value to the root resolver's Len/Nth")
+	nativeListRule(c, r, a, "C01.NATIVE", "a root resolver written for its own containers answers Len 0 for it, so the list comes back empty, silently, instead of mirrored element by element")
 }
 
 func c01Op(c *Ctx, r *Report, a *Anchors) {
